@@ -2,118 +2,135 @@
 (* C03: a flow table that is filled by FLOW_MOD(ADD) messages and looked up  *)
 (* by frames arriving on ports.                                              *)
 (*                                                                           *)
-(* State: tbl, a set of entries [k, m, prio] (OFMatch.tla).  Actions:        *)
+(* State: tbl, a set of entries [k, m, prio] (OFMatch.tla), and grp, the     *)
+(* catalog the run works with (fixed by Init: it selects which matches a     *)
+(* controller may install and which frames may arrive).  Actions:            *)
 (*   Install(k, m, prio)  a controller adds entry k with match m             *)
-(*   Packet(i)            frame FrameSeq[i] arrives; the switch applies the   *)
-(*                        actions of the entry lookup returns (the harness   *)
-(*                        sees output on port 2+k) or sends a packet-in (0)  *)
-(*   ProbeAll             every frame of FrameSeq arrives, in order; the      *)
+(*   Packet(i)            frame i of the catalog arrives; the switch applies  *)
+(*                        the actions of the entry lookup returns (the       *)
+(*                        harness sees output on port 2+k) or sends a        *)
+(*                        packet-in (0)                                      *)
+(*   ProbeAll             every frame of the catalog arrives, in order; the   *)
 (*                        observation is the vector of outcomes              *)
 (* Each action logs [a, args, exp] into `last` and `hist` for export to the  *)
 (* replay harness.  Lookup does not change the table (counters and timeouts  *)
-(* belong to C04).                                                           *)
+(* belong to C04), and an ADD never meets an entry with the same priority    *)
+(* and the same set of matching frames (replacement belongs to C04).         *)
 EXTENDS OFMatch, TLC, Json
 
-CONSTANTS Catalog,    \* set of <<k, m>>: what may be installed (one match per key k)
+CONSTANTS Groups,     \* names of the catalogs
+          CatalogOf,  \* [Groups -> set of <<k, m>>]: what may be installed (one match per key k)
+          FramesOf,   \* [Groups -> sequence of frames]: what may arrive
+          AltOf,      \* [Groups -> a 12-tuple with values the catalog matches do not use]
           Prios,      \* priorities a controller uses
-          FrameSeq,   \* sequence of frames that may arrive
           N,          \* table capacity explored
           Alternate,  \* TRUE: install / probe-all strictly alternate (export of tables)
           D           \* export depth
 
-VARIABLES tbl, phase, last, hist
-vars  == <<tbl, phase, last, hist>>
-view  == <<tbl, phase, last>>
-viewE == <<tbl, phase>>
+VARIABLES grp, tbl, phase, last, hist
+vars  == <<grp, tbl, phase, last, hist>>
+view  == <<grp, tbl, phase, last>>
+viewE == <<grp, tbl, phase>>
 
-Frames == {FrameSeq[i] : i \in DOMAIN FrameSeq}
+\* the 12-tuples of the frame catalogs (constants: computed once)
+TupOf == [g \in Groups |-> [i \in DOMAIN FramesOf[g] |-> Extract(FramesOf[g][i])]]
+TuplesOf == [g \in Groups |-> {TupOf[g][i] : i \in DOMAIN TupOf[g]}]
 Entry(k, m, prio) == [k |-> k, m |-> m, prio |-> prio]
 
 NoObs == [a |-> "Init", args |-> [x |-> 0], exp |-> [x |-> 0]]
-Init == tbl = {} /\ phase = "idle" /\ last = NoObs /\ hist = <<>>
+Init == grp \in Groups /\ tbl = {} /\ phase = "idle" /\ last = NoObs /\ hist = <<>>
 
 Log(a, args, exp) ==
   /\ last' = [a |-> a, args |-> args, exp |-> exp]
   /\ hist' = Append(hist, [a |-> a, args |-> args, exp |-> exp])
 
+\* m1 and m2 are matched by the same frames for the same reason
+Equivalent(m1, m2) ==
+  /\ Active(m1) = Active(m2)
+  /\ \A f \in Active(m1) :
+       CASE f = "nw_src" -> /\ PrefixLen(m1.sbits) = PrefixLen(m2.sbits)
+                            /\ PrefixEq(m1.v.nw_src, m2.v.nw_src, PrefixLen(m1.sbits))
+         [] f = "nw_dst" -> /\ PrefixLen(m1.dbits) = PrefixLen(m2.dbits)
+                            /\ PrefixEq(m1.v.nw_dst, m2.v.nw_dst, PrefixLen(m1.dbits))
+         [] OTHER        -> m1.v[f] = m2.v[f]
+
 \* the table operation itself (also used by the trace spec, without catalog)
 DoInstall(k, m, prio) ==
   /\ \A e \in tbl : e.k # k
+  /\ \A e \in tbl : e.prio = prio => ~Equivalent(e.m, m)
   /\ tbl' = tbl \cup {Entry(k, m, prio)}
-  /\ phase' = "probe"
+  /\ phase' = "probe" /\ UNCHANGED grp
   /\ Log("Install", [k |-> k, m |-> m, prio |-> prio], [n |-> Cardinality(tbl')])
 
 \* a controller may install what the catalog offers, while there is room
 CanInstall == (Alternate => phase = "idle") /\ Cardinality(tbl) < N
 Install(k, m, prio) == CanInstall /\ DoInstall(k, m, prio)
 
-DoPacket(x, tag) ==
-  /\ UNCHANGED <<tbl, phase>>
-  /\ Log("Packet", [x |-> tag], [outs |-> Outcomes(tbl, x)])
+DoPacket(t, tag) ==
+  /\ UNCHANGED <<grp, tbl, phase>>
+  /\ Log("Packet", [g |-> grp, x |-> tag], [outs |-> OutcomesT(tbl, t)])
 
-Packet(i) == ~Alternate /\ DoPacket(FrameSeq[i], i)
+Packet(i) == ~Alternate /\ DoPacket(TupOf[grp][i], i)
 
 ProbeAll ==
   /\ phase = "probe"
-  /\ phase' = "idle" /\ UNCHANGED tbl
-  /\ Log("ProbeAll", [n |-> Len(FrameSeq)],
-         [outs |-> [i \in DOMAIN FrameSeq |-> Outcomes(tbl, FrameSeq[i])]])
+  /\ phase' = "idle" /\ UNCHANGED <<grp, tbl>>
+  /\ Log("ProbeAll", [g |-> grp, n |-> Len(FramesOf[grp])],
+         [outs |-> [i \in DOMAIN TupOf[grp] |-> OutcomesT(tbl, TupOf[grp][i])]])
 
-InstallSome == CanInstall /\ \E km \in Catalog, p \in Prios : Install(km[1], km[2], p)
-PacketSome  == \E i \in DOMAIN FrameSeq : Packet(i)
+InstallSome == CanInstall /\ \E km \in CatalogOf[grp], p \in Prios : Install(km[1], km[2], p)
+PacketSome  == \E i \in DOMAIN FramesOf[grp] : Packet(i)
 Next == InstallSome \/ PacketSome \/ ProbeAll
 Spec == Init /\ [][Next]_vars
 
 ----------------------------------------------------------------------------
 (* The property, over the table and every frame of the catalog.              *)
 
+Tuples == TuplesOf[grp]
 EntryOf(k) == CHOOSE e \in tbl : e.k = k
-MustMatch(e, x) == \A pp \in PcpPols : MatchesP(e.m, x, pp)
-MayMatch(e, x)  == \E pp \in PcpPols : MatchesP(e.m, x, pp)
+MustMatch(e, t) == \A pp \in PcpPols : MatchesPT(e.m, t, pp)
+MayMatch(e, t)  == \E pp \in PcpPols : MatchesPT(e.m, t, pp)
 
-TypeOK == /\ \A e \in tbl : e.prio \in Prios /\ e.m.wc \subseteq FlagFields
+TypeOK == /\ grp \in Groups
+          /\ \A e \in tbl : e.prio \in Prios /\ e.m.wc \subseteq FlagFields
                                  /\ e.m.sbits \in 0..63 /\ e.m.dbits \in 0..63
           /\ \A e1, e2 \in tbl : e1.k = e2.k => e1 = e2
           /\ Cardinality(tbl) <= N
           /\ phase \in {"idle", "probe"}
 
+\* The lookup clauses, for the answer set O of tuple t:
 \* lookup always answers
-Answered == \A x \in Frames : Outcomes(tbl, x) # {}
-
-\* a miss is reported only when no entry matches
-MissOnlyIfNone ==
-  \A x \in Frames : (0 \in Outcomes(tbl, x)) => ~\E e \in tbl : MustMatch(e, x)
-\* ... and whenever no entry matches
-MissIfNone ==
-  \A x \in Frames : (~\E e \in tbl : MayMatch(e, x)) => Outcomes(tbl, x) = {0}
-
+Answered(O, t) == O # {}
+\* a miss is reported only when no entry matches, and whenever none matches
+MissOnlyIfNone(O, t) == (0 \in O) => ~\E e \in tbl : MustMatch(e, t)
+MissIfNone(O, t) == (~\E e \in tbl : MayMatch(e, t)) => O = {0}
 \* the entry returned matches the frame
-HitMatches ==
-  \A x \in Frames : \A k \in Outcomes(tbl, x) \ {0} :
-    \E e \in tbl : e.k = k /\ MayMatch(e, x)
-
+HitMatches(O, t) == \A k \in O \ {0} : \E e \in tbl : e.k = k /\ MayMatch(e, t)
 \* ... and no matching entry outranks it (under whichever exactness policy)
-HighestPriority ==
-  \A x \in Frames : \A k \in Outcomes(tbl, x) \ {0} :
-    \A e2 \in tbl : MustMatch(e2, x) =>
-      \E ep \in ExactPols : Eff(EntryOf(k), ep) >= Eff(e2, ep)
-
+HighestPriority(O, t) ==
+  \A k \in O \ {0} : \A e2 \in tbl : MustMatch(e2, t) =>
+    \E ep \in ExactPols : Eff(EntryOf(k), ep) >= Eff(e2, ep)
 \* an exact-match entry that matches beats every wildcarded one, whatever
 \* the priorities say
-ExactFirst ==
-  \A x \in Frames :
-    (\E e \in tbl : ExactP(e.m, "literal") /\ MustMatch(e, x)) =>
-      /\ 0 \notin Outcomes(tbl, x)
-      /\ \A k \in Outcomes(tbl, x) : ExactP(EntryOf(k).m, "semantic")
-
+ExactFirst(O, t) ==
+  (\E e \in tbl : ExactP(e.m, "literal") /\ MustMatch(e, t)) =>
+    /\ 0 \notin O
+    /\ \A k \in O : ExactP(EntryOf(k).m, "semantic")
 \* without ties and without the two points of latitude the answer is unique
-Unambiguous(x) ==
-  /\ \A e \in tbl : MustMatch(e, x) = MayMatch(e, x)
+Unambiguous(t) ==
+  /\ \A e \in tbl : MustMatch(e, t) = MayMatch(e, t)
   /\ \A e \in tbl : ExactP(e.m, "literal") = ExactP(e.m, "semantic")
-  /\ \A e1, e2 \in tbl : (e1 # e2 /\ MayMatch(e1, x) /\ MayMatch(e2, x))
+  /\ \A e1, e2 \in tbl : (e1 # e2 /\ MayMatch(e1, t) /\ MayMatch(e2, t))
                             => Eff(e1, "literal") # Eff(e2, "literal")
-Deterministic ==
-  \A x \in Frames : Unambiguous(x) => Cardinality(Outcomes(tbl, x)) = 1
+Deterministic(O, t) == Unambiguous(t) => Cardinality(O) = 1
+
+\* (evaluated once per installation: the clauses depend on the table only)
+Fresh == last.a = "Install"
+LookupOK ==
+  Fresh =>
+    \A t \in Tuples : LET O == OutcomesT(tbl, t) IN
+      /\ Answered(O, t) /\ MissOnlyIfNone(O, t) /\ MissIfNone(O, t) /\ HitMatches(O, t)
+      /\ HighestPriority(O, t) /\ ExactFirst(O, t) /\ Deterministic(O, t)
 
 \* -- the oracle's match relation, checked on every installed match
 Widen(m, f) == CASE f = "nw_src" -> [m EXCEPT !.sbits = IF @ < 63 THEN @ + 1 ELSE @]
@@ -121,24 +138,24 @@ Widen(m, f) == CASE f = "nw_src" -> [m EXCEPT !.sbits = IF @ < 63 THEN @ + 1 ELS
                  [] OTHER        -> [m EXCEPT !.wc = @ \cup {f}]
 \* wildcarding more never turns a match into a miss
 Monotone ==
-  \A e \in tbl : \A x \in Frames : Matches(e.m, x) =>
-    \A f \in Fields : Matches(Widen(e.m, f), x)
-\* a match with every field wildcarded matches every frame
-AllWild == [wc |-> FlagFields, sbits |-> 32, dbits |-> 32, v |-> Extract(FrameSeq[1])]
+  Fresh =>
+    \A e \in tbl : \A t \in Tuples : MatchesT(e.m, t, {}) =>
+      \A f \in Fields : MatchesT(Widen(e.m, f), t, {})
 \* the value of a field that is wildcarded or cannot take part is irrelevant
-Perturbed(m, f, x) == [m EXCEPT !.v = [@ EXCEPT ![f] = Extract(x)[f]]]
+\* (other values borrowed from the tuple AltOf[grp])
+Perturbed(m, f, u) == [m EXCEPT !.v = [@ EXCEPT ![f] = u[f]]]
 IgnoredIrrelevant ==
-  \A e \in tbl : \A f \in Fields \ Active(e.m) : \A x, y \in Frames :
-    Matches(Perturbed(e.m, f, y), x) = Matches(e.m, x)
-\* the match is decided by the 12-tuple only
-TupleOnly ==
-  \A e \in tbl : \A x, y \in Frames :
-    Extract(x) = Extract(y) => Matches(e.m, x) = Matches(e.m, y)
+  Fresh =>
+    \A e \in tbl : \A f \in Fields \ Active(e.m) : \A t \in Tuples :
+      MatchesT(Perturbed(e.m, f, AltOf[grp]), t, {}) = MatchesT(e.m, t, {})
+\* equivalent matches are matched by the same frames
+EquivalentSame ==
+  Fresh =>
+    \A e1, e2 \in tbl : Equivalent(e1.m, e2.m) =>
+      \A t \in Tuples : MatchesT(e1.m, t, {}) = MatchesT(e2.m, t, {})
 
 \* ---- export for the replay harness
 Bound   == Len(hist) <= D
 Export  == (Len(hist) = D) => PrintT(<<"H", ToJson(hist)>>)
 ExportT == PrintT(<<"T", ToJson(hist')>>)
-\* only the lookups of the edge cover (shortest path to a table + one lookup)
-ExportP == (last'.a # "Install") => PrintT(<<"T", ToJson(hist')>>)
 =============================================================================
